@@ -447,19 +447,96 @@ class Ref:
         if i < len(insts) and self.name_matches(name, insts[i][1], self.full_mn):
             yield i + 1, env
 
+    # ---------------- capture-free fast path: the same semantics computed on sets of end indices with memoisation
+    # (no environment to thread, so results per (item, start) can be shared).  Used only when the pattern contains no '&'.
+    @staticmethod
+    def _has_capture(node) -> bool:
+        if isinstance(node, str):
+            return node.startswith("&")
+        if isinstance(node, list):
+            return any(Ref._has_capture(x) for x in node)
+        if isinstance(node, dict):
+            return any(Ref._has_capture(k) or Ref._has_capture(v) for k, v in node.items())
+        return False
+
+    def _fast_seq(self, items, insts, i, memo):
+        cur = {i}
+        for it in items:
+            nxt = set()
+            for s in cur:
+                nxt |= self._fast_inst1(it, insts, s, memo)
+            cur = nxt
+            if not cur:
+                break
+        return cur
+
+    def _fast_inst1(self, item, insts, i, memo):
+        key = (id(item), i)
+        got = memo.get(key)
+        if got is not None:
+            return got
+        lo, hi = times_of(item)
+        out = set()
+        cur = {i}
+        r = 0
+        if lo == 0:
+            out.add(i)
+        while r < hi and cur:
+            nxt = set()
+            for s in cur:
+                nxt |= self._fast_once(item, insts, s, memo)
+            r += 1
+            cur = nxt
+            if r >= lo:
+                out |= cur
+        memo[key] = out
+        return out
+
+    def _fast_once(self, item, insts, i, memo):
+        if isinstance(item, dict):
+            key = item_key(item)
+            body = item[key]
+            if key == "$and":
+                return self._fast_seq(body, insts, i, memo)
+            if key == "$or":
+                out = set()
+                for alt in body:
+                    out |= self._fast_inst1(alt, insts, i, memo)
+                return out
+            if key == "$and_any_order":
+                out = set()
+                for perm in set(itertools.permutations(range(len(body)))):
+                    out |= self._fast_seq([body[k] for k in perm], insts, i, memo)
+                return out
+            if key == "$not":
+                return {i + 1} if i < len(insts) and not self._fast_inst1(body[0], insts, i, memo) else set()
+        # mnemonic items: one instruction; operand matching has no environment either
+        return {j for j, _ in self.once(item, insts, i, {})}
+
     # ---------------- public
     def ends(self, pattern, insts, i):
+        if not self._has_capture(pattern):
+            return set(self._fast_seq(pattern, insts, i, {}))
         return {j for j, _ in self.seq(pattern, insts, i, {})}
 
     def spans(self, pattern, insts):
         """set of (i, j): the pattern matches instructions i..j-1."""
         out = set()
+        if not self._has_capture(pattern):
+            memo = {}
+            for i in range(len(insts) + 1):
+                for j in self._fast_seq(pattern, insts, i, memo):
+                    out.add((i, j))
+            return out
         for i in range(len(insts) + 1):
             for j in self.ends(pattern, insts, i):
                 out.add((i, j))
         return out
 
     def found(self, pattern, insts) -> bool:
+        if not self._has_capture(pattern):
+            memo = {}
+            return any(self._fast_seq(pattern, insts, i, memo) for i in range(len(insts) + 1))
         for i in range(len(insts) + 1):
             for _ in self.seq(pattern, insts, i, {}):
                 return True
